@@ -79,3 +79,25 @@ Theorem C18_source_handler_extractor_error : forall (sym : string -> Z) id eerr 
 Proof. exact src_rate_limiter_handler_extractor_error. Qed.
 Print Assumptions C18_source_handler_extractor_error.
 
+
+(* ---- RateLimiterMemoryStore.Allow itself, from its statement-level translation (Gen/Src_ratestore.v, re-translated from
+   middleware/rate_limiter.go on every run): a new visitor is stored in the map at once; lastSeen is set to this call's clock
+   reading BEFORE the sweep test is reached (so the sweep a call triggers never takes the caller's own visitor); the sweep runs
+   exactly when that reading is more than ExpiresIn after the last sweep; the bucket is asked once, for one token, and its
+   answer is returned *)
+From Coq Require Import ZArith String.
+From Echo Require Import Base.GoLite Gen.Src_ratestore Mw.RateStoreSrc.
+Theorem C18_source_store_allow : forall sym lim ex now now2 allowed since expires,
+  let '(st', ret) := GoLite.run sym src_store_allow_results src_store_allow (RateStoreSrc.start lim ex now now2 allowed since expires) in
+  ret = [allowed; sym "nil"%string] /\
+  GoLite.get (GoLite.fields st') "limiter.lastSeen" = now /\
+  GoLite.events st' = ([ev_lookup] ++ (if (ex =? 0)%Z then [ev_store sym] else []) ++ [ev_clock] ++
+                (if (expires <? since)%Z then [ev_sweep] else []) ++ [ev_clock; ev_bucket now2])%list.
+Proof. exact RateStoreSrc.C18_source_store_allow. Qed.
+Print Assumptions C18_source_store_allow.
+Theorem C18_source_last_seen_before_sweep : forall sym lim ex now now2 allowed since expires,
+  let '(st', ret) := GoLite.exec sym src_store_allow_results (before_sweep src_store_allow) (RateStoreSrc.start lim ex now now2 allowed since expires) in
+  ret = None /\ GoLite.get (GoLite.fields st') "limiter.lastSeen" = now /\ GoLite.get (GoLite.locals st') "limiter" = visitor sym lim ex /\
+  (List.length (before_sweep src_store_allow) < List.length src_store_allow)%nat.
+Proof. exact RateStoreSrc.C18_source_last_seen_before_sweep. Qed.
+Print Assumptions C18_source_last_seen_before_sweep.
